@@ -205,3 +205,209 @@ Proof.
     rewrite prodn_ins1, (prodn_del dim ds Hl). apply Nat.div_mul.
     pose proof (prodn_pos _ (allpos_del dim ds Hp)). lia.
 Qed.
+
+(* ===================================================================================== *)
+(* 3. the real-number instance                                                             *)
+(* ===================================================================================== *)
+Section R.
+Variables (thr : R) (draw : bool -> nat -> R).
+Local Hint Extern 0 (Scalar R) => exact (R_scalar thr draw) : typeclass_instances.
+Notation T := (tensor R).
+Notation heap := (@heap R).
+Notation idseal := (fun (_ : option nat) (g : T) => g).
+
+Ltac nlia :=
+  repeat match goal with
+         | H : ?P |- _ =>
+             lazymatch type of P with Prop => idtac end;
+             lazymatch P with
+             | @eq nat _ _ => fail | lt _ _ => fail | le _ _ => fail | not (@eq nat _ _) => fail
+             | or _ _ => fail | and _ _ => fail | _ => idtac
+             end; clear H
+         end; lia.
+Ltac upd_eq :=
+  unfold upd;
+  repeat match goal with
+         | |- context [Nat.eqb ?a ?b] =>
+             first [ rewrite (proj2 (Nat.eqb_eq a b)) by nlia | rewrite (proj2 (Nat.eqb_neq a b)) by nlia ]
+         end.
+
+(* the Broadcast back edge of the normaliser: one dimension of size 1 expanded to n *)
+Lemma bcast_back_unsq rd (g4 : T) dim ds : wf g4 -> dims g4 = ds -> (dim < length ds)%nat ->
+  exists g2, bcastBack rd g4 (ins dim 1%nat (del dim ds)) ds = Ok g2 /\
+    dims g2 = ins dim 1%nat (del dim ds) /\ wf g2 /\
+    forall j, validIdx (del dim ds) j ->
+      elt g2 (ins dim 0%nat j) =
+      rdc rd (nth dim ds 0%nat) * sumN (nth dim ds 0%nat) (fun k => elt g4 (ins dim k j)).
+Proof.
+  intros W D Hl. assert (Hp : allpos ds) by (rewrite <- D; exact (proj2 W)).
+  assert (Hdl : (dim <= length (del dim ds))%nat) by (rewrite del_length by exact Hl; lia).
+  destruct (bcastBack_char thr draw rd g4 (ins dim 1%nat (del dim ds)) ds W D (bcompat_ins1 dim ds Hl))
+    as (g2 & E & D2 & W2 & F).
+  exists g2. split; [exact E|]. split; [exact D2|]. split; [exact W2|].
+  intros j Hj. rewrite F by (apply vi_ins1; [exact Hdl|exact Hj]).
+  rewrite (bfac_ins1 rd dim ds Hp Hl). f_equal.
+  rewrite <- (sum_del dim ds (elt g4) j Hl Hj). unfold push. apply sumIdx_ext. intros q Hq.
+  rewrite (bproj_ins1 dim ds q Hl Hq). rewrite idx_eqb_ins; [reflexivity| |].
+  - pose proof (validIdx_len _ _ (vi_del dim _ _ Hq)) as L. rewrite L. exact Hdl.
+  - rewrite (validIdx_len _ _ Hj). exact Hdl.
+Qed.
+
+Lemma unflat_unsq dim D j : (dim <= length D)%nat -> validIdx D j ->
+  unflatIdx (ins dim 1%nat D) (flatIdx D j) = ins dim 0%nat j.
+Proof.
+  intros Hl Hj. rewrite <- (flatIdx_ins10 dim D j Hl Hj). apply unflatIdx_flatIdx. apply vi_ins1; assumption.
+Qed.
+
+Theorem softmax_grad rd (h h1 hh : heap) dim x y name xv gy log :
+  valOf h x = Some xv -> wf xv -> trackedOf h x = true -> dirtyOf h x = false ->
+  softmax_forward h dim [Some x] name = (h1, Ok y) ->
+  let a := length h in
+  let n := nth dim (dims xv) 0%nat in
+  sameS h1 hh -> gradOf hh y = Some gy -> wf gy -> dims gy = dims xv ->
+  (forall k, (k < 5)%nat -> gradOf hh (a + k)%nat = None) ->
+  prior_ok (dims xv) (gradOf hh x) ->
+  exists yv hh' gx lg,
+    (* the Softmax output p *)
+    valOf h1 y = Some yv /\ dims yv = dims xv /\
+    (forall i, validIdx (dims xv) i ->
+       elt yv i = exp (elt xv i) / sumN n (fun k => exp (elt xv (setAt dim k i)))) /\
+    (* processing the component's nodes never fails *)
+    fold_left (process_node rd idseal) [y; a + 4; a + 2; a + 1; a + 3; a]%nat (hh, log, Ok tt)
+      = (hh', lg ++ log, Ok tt) /\
+    map fst lg = [a; a + 3; a + 1; a + 2; a + 4; y]%nat /\
+    sameS hh hh' /\
+    (forall m, m <> x -> (m < a \/ a + 5 <= m)%nat -> gradOf hh' m = gradOf hh m) /\
+    gradOf hh' x = Some gx /\ dims gx = dims xv /\ wf gx /\
+    forall i, validIdx (dims xv) i ->
+      elt gx i = prior (gradOf hh x) i +
+                 elt yv i * (elt gy i - rdc rd n * sumN n (fun k => elt yv (setAt dim k i) * elt gy (setAt dim k i))).
+Proof.
+  intros Hx Wx Tx Dx E a n S Hgy Wgy Dgy Hint Hp.
+  pose proof (softmax_structure h dim x name h1 y xv E Hx Wx Tx Dx) as St. cbv zeta in St. fold a in St.
+  destruct St as (exv & sv & suv & subv & yv & Hl & Hex & Hs & Hsu & Hsub & Hy & Ey & L1 & Old & N0 & N1 & N2 & N3 & N4 & N5).
+  subst y.
+  destruct N0 as (L0 & V0 & T0 & E0 & _). destruct N1 as (_ & V1 & T1 & E1 & _). destruct N2 as (_ & V2 & T2 & E2 & _).
+  destruct N3 as (_ & V3 & T3 & E3 & _). destruct N4 as (_ & V4 & T4 & E4 & _). destruct N5 as (_ & V5 & T5 & E5 & _).
+  assert (I0 : gradOf hh a = None) by (rewrite <- (Nat.add_0_r a); apply Hint; nlia).
+  pose proof (Hint 1%nat ltac:(nlia)) as I1. pose proof (Hint 2%nat ltac:(nlia)) as I2.
+  pose proof (Hint 3%nat ltac:(nlia)) as I3. pose proof (Hint 4%nat ltac:(nlia)) as I4.
+  pose proof (HS_init h1 hh S) as H0.
+  assert (Hxl : (x < a)%nat) by (apply tracked_lt; exact Tx).
+  assert (Vx1 : valOf h1 x = Some xv) by (eapply isOld_val; eauto).
+  assert (Tx1 : trackedOf h1 x = true) by (rewrite (isOld_trk h h1 x Old Hxl); exact Tx).
+  (* ---- forward values ---- *)
+  destruct (un_elt thr draw UExpo xv Wx) as (t0 & Et0 & Dex & Wex & Fex).
+  rewrite Hex in Et0. inversion Et0; subst t0. clear Et0.
+  assert (Hl' : (dim < length (dims exv))%nat) by (rewrite Dex; exact Hl).
+  destruct (along_elt thr draw RdSum exv dim Wex Hl') as (t0 & Et0 & Ds & Ws & Fs).
+  rewrite Hs in Et0. inversion Et0; subst t0. clear Et0.
+  destruct (unsq_bcast_get sv exv dim Ws Wex Hl' Ds) as (o & ub & Eo & Eb & Dsu & Wsu & Dsub & Wsub & Gsub).
+  rewrite Hsu in Eo. inversion Eo; subst o. clear Eo.
+  rewrite Hsub in Eb. inversion Eb; subst ub. clear Eb.
+  destruct (apply2_spec (binaryF BiDiv) exv subv Wex Wsub (eq_sym Dsub)) as (t0 & Et0 & Dy & Wy & Gy).
+  rewrite Hy in Et0. inversion Et0; subst t0. clear Et0.
+  rewrite Dex in *. rewrite squeezeDims_del in *.
+  set (ds := dims xv) in *.
+  assert (Hpos : allpos ds) by exact (proj2 Wx).
+  assert (Hn : (0 < n)%nat).
+  { unfold n. fold ds. clear - Hpos Hl. revert dim Hl. induction Hpos as [|d l Hd _ IH]; intros dim Hl; cbn in Hl; [lia|].
+    destruct dim; cbn [nth]; [exact Hd|apply IH; lia]. }
+  assert (Fsub : forall i, validIdx ds i -> elt subv i = elt sv (del dim i)).
+  { intros i Hv. unfold elt. rewrite (Gsub i Hv). reflexivity. }
+  assert (Fy : forall i, validIdx ds i -> elt yv i = elt exv i / elt subv i).
+  { intros i Hv. unfold elt at 1. rewrite (Gy i Hv).
+    rewrite (VjpReduceP.elt_some exv i Wex) by (rewrite Dex; exact Hv).
+    rewrite (VjpReduceP.elt_some subv i Wsub) by (rewrite Dsub; exact Hv). reflexivity. }
+  assert (Fsv : forall j, validIdx (del dim ds) j -> elt sv j = sumN n (fun k => exp (elt xv (ins dim k j)))).
+  { intros j Hj. rewrite (Fs j Hj). cbn [redL]. rewrite (sum_is_sum thr draw).
+    change (Rsum (map (fib (elt exv) dim j) (seq 0 n))) with (sumN n (fib (elt exv) dim j)).
+    apply VjpGatherP.sumN_ext. intros k Hk. unfold fib. rewrite Fex; [reflexivity|].
+    apply vi_ins; assumption. }
+  assert (Spos : forall j, validIdx (del dim ds) j -> 0 < elt sv j).
+  { intros j Hj. rewrite (Fsv j Hj). apply sumN_pos; [exact Hn|]. intros k. apply exp_pos. }
+  assert (Vxh : forall G hx, HS h1 G hx -> valOf hx x = Some xv) by (intros G hx HH; rewrite (HS_val _ _ _ _ HH); exact Vx1).
+  (* ---- 1. y = b1 / b2 ---- *)
+  destruct (rdiva_eval thr draw rd hh (a + 5) (a + 4) subv gy)%nat as (g3 & Eg3 & Dg3 & Wg3 & Gg3);
+    [rewrite (HS_val _ _ _ _ H0); exact V4|exact Hgy|exact Wsub|exact Wgy|congruence|].
+  destruct (rdivb_eval thr draw rd hh (a + 5) (a + 3) (a + 4) exv subv gy)%nat as (g4 & Eg4 & Dg4 & Wg4 & Gg4);
+    [rewrite (HS_val _ _ _ _ H0); exact V3|rewrite (HS_val _ _ _ _ H0); exact V4|exact Hgy|exact Wex|exact Wsub|exact Wgy
+    |congruence|congruence|].
+  destruct (node_run2 rd h1 _ hh log (a + 5) gy (a + 3) (RDivA (a + 5) (a + 4)) (a + 4) (RDivB (a + 5) (a + 3) (a + 4))
+              g3 (Some g3) g4 (Some g4) H0)%nat as (hhA & EpA & HA);
+    [nlia|exact Hgy|exact E5|exact T3|nlia|reflexivity|exact T4|nlia|reflexivity
+    |exact Eg3|rewrite I3; reflexivity|exact Eg4|upd_eq; rewrite I4; reflexivity|].
+  (* ---- 2. b2 = Broadcast(su): the normaliser's share, summed (or averaged) over the fibre ---- *)
+  destruct (bcast_back_unsq rd g4 dim ds Wg4 ltac:(congruence) Hl) as (g2 & Eg2 & Dg2 & Wg2 & Gg2).
+  assert (Ebc : eval_rule rd hhA (RBroadcast (a + 4) (a + 2)) = Ok g2).
+  { unfold eval_rule, gy_of, val_of. rewrite (proj2 HA (a + 4)%nat), !(HS_val _ _ _ _ HA), V2, V4.
+    replace (upd (upd (gradOf hh) (a + 3)%nat (Some g3)) (a + 4)%nat (Some g4) (a + 4)%nat) with (Some g4) by (upd_eq; reflexivity).
+    cbn [of_opt res_bind]. rewrite Dsu, Dsub. exact Eg2. }
+  destruct (node_run1 rd h1 _ hhA ((a + 5, gy) :: log)%nat (a + 4) g4 (a + 2) (RBroadcast (a + 4) (a + 2)) g2 (Some g2) HA)%nat
+    as (hhB & EpB & HB);
+    [nlia|upd_eq; reflexivity|exact E4|exact T2|nlia|reflexivity|exact Ebc|upd_eq; rewrite I2; reflexivity|].
+  (* ---- 3. su = s.UnSqueeze(dim): Reshape back ---- *)
+  destruct (vjp_reshape thr draw rd hhB (a + 2) (a + 1) sv g2)%nat as (g1 & Eg1 & Dg1 & Wg1 & Gg1 & _);
+    [rewrite (HS_val _ _ _ _ HB); exact V1|rewrite (proj2 HB); upd_eq; reflexivity|exact Ws|exact Wg2
+    |rewrite Dg2, Ds; apply prodn_ins1|].
+  destruct (node_run1 rd h1 _ hhB ((a + 4, g4) :: (a + 5, gy) :: log)%nat (a + 2) g2 (a + 1) (RReshape (a + 2) (a + 1)) g1 (Some g1) HB)%nat
+    as (hhC & EpC & HC);
+    [nlia|upd_eq; reflexivity|exact E2|exact T1|nlia|reflexivity|exact Eg1|upd_eq; rewrite I1; reflexivity|].
+  (* ---- 4. s = ex.SumAlong(dim) ---- *)
+  destruct (rsum_eval thr draw rd hhC (a + 1) a dim exv g1)%nat as (gA & EgA & DgA & WgA & GgA);
+    [rewrite (HS_val _ _ _ _ HC); exact V0|rewrite (proj2 HC); upd_eq; reflexivity|exact Wex|exact Wg1
+    |rewrite Dex; exact Hl|rewrite Dg1, Ds, Dex; reflexivity|].
+  destruct (node_run1 rd h1 _ hhC ((a + 2, g2) :: (a + 4, g4) :: (a + 5, gy) :: log)%nat (a + 1) g1 a
+              (RSumAlong (a + 1) a (Z.of_nat dim)) gA (Some gA) HC)%nat as (hhD & EpD & HD);
+    [nlia|upd_eq; reflexivity|exact E1|exact T0|nlia|reflexivity|exact EgA|upd_eq; rewrite I0; reflexivity|].
+  (* ---- 5. b1 = Broadcast(ex): factor 1 ---- *)
+  destruct (acc1_R thr draw ds (Some gA) g3 (conj WgA ltac:(congruence)) Wg3 ltac:(congruence)) as (sE & EsE & WsE & DsE & GsE).
+  destruct (node_run1 rd h1 _ hhD ((a + 1, g1) :: (a + 2, g2) :: (a + 4, g4) :: (a + 5, gy) :: log)%nat (a + 3) g3 a
+              (RBroadcast (a + 3) a) g3 (Some sE) HD)%nat as (hhE & EpE & HE);
+    [nlia|upd_eq; reflexivity|exact E3|exact T0|nlia|reflexivity| |upd_eq; exact EsE|].
+  { apply (rbroadcast_same rd hhD (a + 3) a exv exv g3)%nat;
+      [rewrite (HS_val _ _ _ _ HD); exact V3|rewrite (HS_val _ _ _ _ HD); exact V0
+      |rewrite (proj2 HD); upd_eq; reflexivity|reflexivity]. }
+  (* ---- 6. ex = x.Exp() ---- *)
+  destruct (rexp_eval thr draw rd hhE a exv sE) as (gX & EgX & DgX & WgX & GgX);
+    [rewrite (HS_val _ _ _ _ HE); exact V0|rewrite (proj2 HE); upd_eq; reflexivity|exact Wex|exact WsE|congruence|].
+  destruct (acc1_R thr draw ds (gradOf hh x) gX Hp WgX ltac:(congruence)) as (sX & EsX & WsX & DsX & GsX).
+  destruct (node_run1 rd h1 _ hhE ((a + 3, g3) :: (a + 1, g1) :: (a + 2, g2) :: (a + 4, g4) :: (a + 5, gy) :: log)%nat
+              a sE x (RExp a) gX (Some sX) HE)%nat as (hhF & EpF & HF);
+    [nlia|upd_eq; reflexivity|exact E0|exact Tx1|nlia|reflexivity|exact EgX|upd_eq; exact EsX|].
+  exists yv, hhF, sX, [(a, sE); (a + 3, g3); (a + 1, g1); (a + 2, g2); (a + 4, g4); (a + 5, gy)]%nat.
+  split; [exact V5|]. split; [congruence|].
+  assert (Ysm : forall i, validIdx ds i -> elt yv i = exp (elt xv i) / sumN n (fun k => exp (elt xv (setAt dim k i)))).
+  { intros i Hv. rewrite (Fy i Hv), (Fex i Hv), (Fsub i Hv), Fsv by (apply vi_del; exact Hv). reflexivity. }
+  split; [exact Ysm|].
+  split; [cbn [fold_left]; rewrite EpA, EpB, EpC, EpD, EpE; exact EpF|].
+  split; [reflexivity|].
+  split; [eapply sameS_trans; [apply sameS_sym; exact S|exact (proj1 HF)]|].
+  split; [intros m Hm1 Hm2; rewrite (proj2 HF m); upd_eq; reflexivity|].
+  split; [rewrite (proj2 HF x); upd_eq; reflexivity|].
+  split; [exact DsX|]. split; [exact WsX|].
+  (* ---- the formula ---- *)
+  intros i Hv.
+  assert (Hj : validIdx (del dim ds) (del dim i)) by (apply vi_del; exact Hv).
+  assert (Hdl : (dim <= length (del dim ds))%nat) by (rewrite del_length by exact Hl; lia).
+  set (j := del dim i) in *. set (Sg := elt sv j).
+  assert (HS0 : Sg <> 0) by (pose proof (Spos j Hj); unfold Sg; lra).
+  assert (Hq : forall k, (k < n)%nat -> validIdx ds (ins dim k j)) by (intros k Hk; apply vi_ins; assumption).
+  assert (Sq : forall k, (k < n)%nat -> elt subv (ins dim k j) = Sg).
+  { intros k Hk. rewrite (Fsub _ (Hq k Hk)). rewrite del_ins by (rewrite (validIdx_len _ _ Hj); exact Hdl). reflexivity. }
+  set (Sig := sumN n (fun k => elt exv (ins dim k j) * elt gy (ins dim k j))).
+  assert (S4 : sumN n (fun k => elt g4 (ins dim k j)) = (- / Sg ^ 2) * Sig).
+  { unfold Sig. rewrite <- sumN_scal. apply VjpGatherP.sumN_ext. intros k Hk.
+    rewrite Gg4 by (rewrite Dsub; apply Hq; exact Hk). rewrite (Sq k Hk). field. exact HS0. }
+  assert (Sy : sumN n (fun k => elt yv (setAt dim k i) * elt gy (setAt dim k i)) = (/ Sg) * Sig).
+  { unfold Sig. rewrite <- sumN_scal. apply VjpGatherP.sumN_ext. intros k Hk. unfold setAt. fold j.
+    rewrite (Fy _ (Hq k Hk)), (Sq k Hk). field. exact HS0. }
+  rewrite (GsX i Hv), GgX by (rewrite Dex; exact Hv). rewrite (GsE i Hv). cbn [prior].
+  rewrite GgA by (rewrite Dex; exact Hv). fold j.
+  rewrite Gg1 by (rewrite Ds; exact Hj). rewrite Dg2, Ds, (unflat_unsq dim (del dim ds) j Hdl Hj).
+  rewrite (Gg2 j Hj). fold n. rewrite S4.
+  rewrite Gg3 by (rewrite Dsub; exact Hv).
+  rewrite Sy, (Fy i Hv), (Fsub i Hv). fold j. fold Sg. field. exact HS0.
+Qed.
+
+End R.
